@@ -1,5 +1,7 @@
 import DirectVerif.Lemmas.C14Plumbing
+import DirectVerif.Lemmas.C14Loop
 import DirectVerif.Props.C10
+import Mathlib.Data.List.Perm.Basic
 /-!
 # C14 — volume reconstruction returns each volume once with its slices in order
 
@@ -336,5 +338,205 @@ theorem predict_write_all_ranks {β} (layout : List Nat) (hl : ∀ n ∈ layout,
     exact (volsFrom_pairwise 0 0 layout).imp (fun h e => by have := hb _ _ e; omega)
   exact write_roundtrip base id key [] _ hpw (v.indices.map out, v.id)
     (List.mem_map.mpr ⟨v, hv, rfl⟩)
+
+/-! ## phase 3: what the loop reads, which delivery orders it tolerates, the loss list -/
+
+/-- **`slice_no` is never read**: whatever the items report as `slice_no` (position in the volume, file
+coordinates after a `slice_data` filter, gaps, a permutation, a constant), the generator yields the same —
+the `k`-th slice of a volume is the `k`-th slice *delivered* for it. -/
+theorem reconstruct_ignores_slice_no {β ℓ} (sizeOf : Nat → Option Nat) (zero : β)
+    (g : LBatch β ℓ → List Int) (bs : List (LBatch β ℓ)) :
+    reconstructL sizeOf zero LState.init (bs.map fun b => { b with sliceNos := g b }) =
+      reconstructL sizeOf zero LState.init bs :=
+  reconstructL_sliceNos_irrelevant sizeOf zero g bs LState.init
+
+/-- the loop with the loss list yields the same volumes as the loop without -/
+theorem reconstructL_volumes {β ℓ} (sizeOf : Nat → Option Nat) (zero : β) (bs : List (LBatch β ℓ)) :
+    ((reconstructL sizeOf zero LState.init bs).1.map fun y => (y.1, y.2.2)) =
+        (reconstruct sizeOf zero RState.init (bs.map LBatch.erase)).1 ∧
+      (reconstructL sizeOf zero LState.init bs).2 =
+        (reconstruct sizeOf zero RState.init (bs.map LBatch.erase)).2 :=
+  reconstructL_erase sizeOf zero bs LState.init
+
+/-- **Specification of the loop with `slice_no` and `loss_dict_list`.**  For well-formed streams (as in
+`reconstruct_spec`; each piece carries arbitrary slice numbers and the loss dict of its batch): one yield
+per volume, slices in delivery order, and the loss list of the `k`-th yield is the list of the loss dicts
+of the **first batch** of volumes `0 … k` (`yieldsFrom`, `loss_list_of_kth_yield`). -/
+theorem reconstructL_spec {β ℓ} (sizeOf : Nat → Option Nat) (zero : β) (d : ℓ)
+    (vs : List (Nat × List (List (β × Int) × ℓ)))
+    (hv : ∀ v ∈ vs, v.2 ≠ [] ∧ (∀ p ∈ v.2, p.1 ≠ []) ∧ sizeOf v.1 = some (piecesOuts v.2).length)
+    (hd : vs.Pairwise fun a b => a.1 ≠ b.1) :
+    reconstructL sizeOf zero LState.init (vs.flatMap fun v => volBatchesL v.1 v.2) =
+      (yieldsFrom [] vs d, none) :=
+  reconstructL_volumes_spec sizeOf zero d vs RState.init [] hv hd (fun _ _ => Or.inl ⟨rfl, rfl, rfl⟩)
+
+/-- the loss list yielded with the `k`-th volume: first-batch loss dicts of volumes `0 … k` — a running
+list over the whole loader, **not** the losses of that volume's batches (outside C14's statement, which
+is about the volumes; recorded as a note) -/
+theorem loss_list_of_kth_yield {β ℓ} (d : ℓ) (vs : List (Nat × List (List (β × Int) × ℓ))) (k : Nat)
+    (hk : k < vs.length) :
+    ((yieldsFrom [] vs d)[k]?).map (·.2.1) =
+      some ((vs.take (k + 1)).map fun v => (v.2.head?.map (·.2)).getD d) := by
+  simpa using yieldsFrom_losses d vs [] k hk
+
+/-- witness: volume 1 (two batches with losses 30 and 40) is yielded with the list `[10, 30]` — the loss
+of volume 0's batch is in it, the loss 40 of its own second batch is not -/
+theorem loss_list_not_per_volume :
+    reconstructL (ℓ := Nat) (fun f => if f = 0 then some 1 else some 2) (0 : Nat) LState.init
+        [⟨[0], [0], [5], 10⟩, ⟨[1], [0], [6], 30⟩, ⟨[1], [1], [7], 40⟩] =
+      ([([5], [10], 0), ([6, 7], [10, 30], 1)], none) := by decide
+
+/-- **Tolerated reorderings.**  Let the loader deliver the volumes of `vs` in another order (`hvol`) and,
+inside a volume, its batches in another order (`hpieces`), but every volume's batches *contiguously*.
+Then the generator still yields every volume exactly once without an exception, in the delivered volume
+order, and the slices of a volume are its pieces **in the delivered order**: the output for a volume is
+right iff the delivered pieces concatenate to the volume (`v'.2.flatten = v.2.flatten`), in particular
+for every reordering of whole volumes. -/
+theorem reconstruct_reordered {β} (sizeOf : Nat → Option Nat) (zero : β) (vs vs' : List (Nat × List (List β)))
+    (hv : ∀ v ∈ vs, v.2 ≠ [] ∧ (∀ p ∈ v.2, p ≠ []) ∧ sizeOf v.1 = some v.2.flatten.length)
+    (hd : vs.Pairwise fun a b => a.1 ≠ b.1)
+    (hvol : (vs'.map (·.1)).Perm (vs.map (·.1)))
+    (hpieces : ∀ v' ∈ vs', ∃ v ∈ vs, v.1 = v'.1 ∧ v'.2.Perm v.2) :
+    reconstruct sizeOf zero RState.init (vs'.flatMap fun v => volBatches v.1 v.2) =
+      (vs'.map fun v => (v.2.flatten, v.1), none) := by
+  apply reconstruct_spec
+  · intro v' hv'
+    obtain ⟨v, hvm, hid, hp⟩ := hpieces v' hv'
+    obtain ⟨h1, h2, h3⟩ := hv v hvm
+    refine ⟨?_, ?_, ?_⟩
+    · intro e
+      rw [e] at hp
+      exact h1 (List.Perm.eq_nil hp.symm)
+    · intro p hpm
+      exact h2 p (hp.mem_iff.mp hpm)
+    · rw [← hid, h3, hp.flatten.length_eq]
+  · have h1 : (vs.map (·.1)).Pairwise (· ≠ ·) := by rw [List.pairwise_map]; exact hd
+    have h2 := (hvol.pairwise_iff (R := fun (a b : Nat) => a ≠ b) (fun h => h.symm)).mpr h1
+    rw [List.pairwise_map] at h2
+    exact h2
+
+/-- … so the set of outputs does not depend on the order in which whole volumes arrive -/
+theorem reconstruct_any_volume_order {β} (sizeOf : Nat → Option Nat) (zero : β)
+    (vs vs' : List (Nat × List (List β)))
+    (hv : ∀ v ∈ vs, v.2 ≠ [] ∧ (∀ p ∈ v.2, p ≠ []) ∧ sizeOf v.1 = some v.2.flatten.length)
+    (hd : vs.Pairwise fun a b => a.1 ≠ b.1) (hp : vs'.Perm vs) :
+    (reconstruct sizeOf zero RState.init (vs'.flatMap fun v => volBatches v.1 v.2)).1.Perm
+        (reconstruct sizeOf zero RState.init (vs.flatMap fun v => volBatches v.1 v.2)).1 ∧
+      (reconstruct sizeOf zero RState.init (vs'.flatMap fun v => volBatches v.1 v.2)).2 = none := by
+  rw [reconstruct_spec sizeOf zero vs hv hd,
+    reconstruct_reordered sizeOf zero vs vs' hv hd (hp.map _)
+      (fun v' hv' => ⟨v', hp.mem_iff.mp hv', rfl, List.Perm.refl _⟩)]
+  exact ⟨hp.map _, rfl⟩
+
+/-- **Not tolerated (1): batches of one volume out of order.**  As soon as two batches may be in flight
+(`k ≥ 2`), a loader that hands over whichever is ready can deliver the two batches `p`, `q` of a volume
+swapped; the volume is then yielded as `q ++ p`, silently. -/
+theorem window_two_can_misorder {β} (k : Nat) (hk : 2 ≤ k) (sizeOf : Nat → Option Nat) (zero : β) (f : Nat)
+    (p q : List β) (hp : p ≠ []) (hq : q ≠ []) (hs : sizeOf f = some (q.length + p.length)) :
+    ∃ ys ∈ windowOrders k (volBatches f [p, q]),
+      reconstruct sizeOf zero RState.init ys = ([(q ++ p, f)], none) := by
+  refine ⟨volBatches f [q, p], windowOrders_swap k hk _ _, ?_⟩
+  have := reconstruct_spec sizeOf zero [(f, [q, p])]
+    (by
+      intro v hv
+      simp only [List.mem_singleton] at hv
+      subst hv
+      refine ⟨by simp, ?_, by simpa using hs⟩
+      intro x hx
+      simp only [List.mem_cons, List.not_mem_nil, or_false] at hx
+      rcases hx with rfl | rfl <;> assumption)
+    (by simp)
+  simpa using this
+
+/-- **Not tolerated (2): interleaved volumes.**  A batch of another file makes the loop forget the volume
+it was assembling: the next step does not depend on `curr_volume` / `slice_counter` of the interrupted
+volume at all. -/
+theorem filename_change_discards_partial_volume {β} (sizeOf : Nat → Option Nat) (zero : β)
+    (s1 s2 : RState β) (g1 g2 f : Nat) (h1 : s1.last = some g1) (h1' : g1 ≠ f) (h2 : s2.last = some g2)
+    (h2' : g2 ≠ f) (b : RBatch β) (hb : filenameOf b.fnames = some f) :
+    rstep sizeOf zero s1 b = rstep sizeOf zero s2 b := by
+  unfold rstep
+  simp [hb, h1, h1', h2, h2']
+
+/-- witness: two 4-slice volumes delivered alternately in batches of 2 — nothing is yielded and no
+exception is raised (both volumes are silently lost) -/
+theorem interleaved_volumes_are_lost :
+    reconstruct (lookupSize (volumes [4, 4])) 0 RState.init
+      (loaderBatches (fnameOfIndex (volumes [4, 4])) (fun i => (10 * i : Nat)) [[0, 1], [4, 5], [2, 3], [6, 7]]) =
+      ([], none) := by decide
+
+theorem flatMap_singleton_map {α γ} (f : α → γ) (l : List α) : l.flatMap (fun a => [f a]) = l.map f := by
+  induction l with
+  | nil => rfl
+  | cons a l ih => simp [ih]
+
+/-- **Tolerated for every window**: when every volume fits into one batch (batch size ≥ every volume),
+every delivery order of a loader with any number `k` of batches in flight yields every volume exactly
+once, correctly assembled, without an exception (only the order of the tuples follows the delivery). -/
+theorem single_batch_volumes_any_order {β} (sizeOf : Nat → Option Nat) (zero : β) (vols : List (Nat × List β))
+    (hv : ∀ v ∈ vols, v.2 ≠ [] ∧ sizeOf v.1 = some v.2.length)
+    (hd : vols.Pairwise fun a b => a.1 ≠ b.1) (k : Nat) (hk : 0 < k) (ys : List (RBatch β))
+    (hy : ys ∈ windowOrders k (vols.map fun v => (⟨List.replicate v.2.length v.1, v.2⟩ : RBatch β))) :
+    (reconstruct sizeOf zero RState.init ys).1.Perm (vols.map fun v => (v.2, v.1)) ∧
+      (reconstruct sizeOf zero RState.init ys).2 = none := by
+  have hperm := windowOrders_perm k hk _ ys hy
+  have hc := congrFun (congrFun (List.eq_map_comp_perm
+    (fun (v : Nat × List β) => (⟨List.replicate v.2.length v.1, v.2⟩ : RBatch β))) ys) vols
+  have : ∃ vols' : List (Nat × List β), ys = vols'.map (fun (v : Nat × List β) => (⟨List.replicate v.2.length v.1, v.2⟩ : RBatch β)) ∧
+      vols'.Perm vols := by
+    have h' : Relation.Comp (fun (a : List (RBatch β)) (b : List (Nat × List β)) =>
+        a = List.map (fun v => (⟨List.replicate v.2.length v.1, v.2⟩ : RBatch β)) b) List.Perm ys vols := by
+      rw [hc]; exact hperm
+    exact h'
+  obtain ⟨vols', rfl, hp⟩ := this
+  have hspec := reconstruct_reordered sizeOf zero (vols.map fun v => (v.1, [v.2])) (vols'.map fun v => (v.1, [v.2]))
+    (by
+      intro w hw
+      rw [List.mem_map] at hw
+      obtain ⟨v, hvm, rfl⟩ := hw
+      obtain ⟨h1, h2⟩ := hv v hvm
+      refine ⟨by simp, ?_, by simpa using h2⟩
+      intro x hx
+      simp only [List.mem_singleton] at hx
+      subst hx; exact h1)
+    (by rw [List.pairwise_map]; exact hd)
+    (by simp only [List.map_map]; exact hp.map _)
+    (by
+      intro w hw
+      rw [List.mem_map] at hw
+      obtain ⟨v, hvm, rfl⟩ := hw
+      exact ⟨(v.1, [v.2]), List.mem_map.mpr ⟨v, hp.mem_iff.mp hvm, rfl⟩, rfl, List.Perm.refl _⟩)
+  have hb : ((vols'.map fun v => (v.1, [v.2])).flatMap fun v => volBatches v.1 v.2) =
+      vols'.map (fun (v : Nat × List β) => (⟨List.replicate v.2.length v.1, v.2⟩ : RBatch β)) := by
+    rw [List.flatMap_map]
+    simp only [volBatches, List.map_cons, List.map_nil]
+    exact flatMap_singleton_map _ _
+  rw [hb] at hspec
+  rw [hspec]
+  refine ⟨?_, rfl⟩
+  simp only [List.map_map]
+  exact (hp.map _).trans (by simp [Function.comp_def])
+
+/-- **`Engine.predict` with a loader that keeps one batch in flight** (and torch's default
+`in_order=True` for any number of workers): `predict_full_spec` applies. -/
+theorem predict_full_spec_window_one {α σ} (mul : α → σ → α) (layout : List Nat) (hl : ∀ n ∈ layout, 0 < n)
+    (world rank bs : Nat) (hbs : 0 < bs) (key : CropKey) (fwd : Nat → Img α) (scale : Nat → σ)
+    (recon : Nat → List Nat) (deliver : Loader) (hd : ∀ b, deliver b ∈ windowOrders 1 b) (out : Nat → Img α)
+    (hout : ∀ v ∈ rankVols layout world rank 0, ∃ res,
+      computeResolution key (recon v.start) = .ok res ∧
+      ∀ i ∈ v.indices, recon i = recon v.start ∧ processSlice mul res (fwd i) (scale i) = some (out i)) :
+    predictFull mul layout world rank bs key fwd scale recon deliver =
+      ((rankVols layout world rank 0).map fun v => (v.indices.map out, v.id), none) :=
+  predict_full_spec mul layout hl world rank bs hbs key fwd scale recon deliver
+    (fun b => by have := hd b; rw [windowOrders_one] at this; simpa using this) out hout
+
+-- hypotheses are satisfiable / the definitions compute what one expects
+example : windowOrders 2 [1, 2, 3] = [[1, 2, 3], [1, 3, 2], [2, 1, 3], [2, 3, 1]] := by decide
+-- a slow first batch may arrive arbitrarily late, a batch at most `k - 1` positions early
+example : [2, 3, 4, 1] ∈ windowOrders 2 [1, 2, 3, 4] ∧ [3, 1, 2, 4] ∉ windowOrders 2 [1, 2, 3, 4] := by decide
+example : windowOrders 1 [1, 2, 3] = [[1, 2, 3]] := by decide
+example : reconstructL (ℓ := Nat) (fun _ => some 2) (0 : Nat) LState.init
+    ((volBatchesL 7 [([(5, 3), (6, 9)], 11)])) = ([([5, 6], [11], 7)], none) := by decide
+example : stateWritesOk expectedStateWrites = true := by decide
 
 end DirectVerif.C14
